@@ -541,6 +541,18 @@ theorem step_sat {W : Nat} (hW : 0 < W) (hI : Inv mx P L) (op : Op) (hok : op.Ok
       show Moves L L n r.own b.own
       rw [← hown]
       exact Moves.refl (hl b.id b.cap hown.symm)
+  | zeroize k =>
+    simp only [step, Op.target]
+    split
+    · exact onBuf_sat hI fun b _ hl hw => bufSlot_sat (zeroizeBuf_sat hl hw).bpost
+    · apply onRep_sat hI
+      intro r _ hl hc
+      apply repSlot_sat
+      apply Sat.conseq (repZeroize_sat hc hl)
+      intro r' L' n' _ ⟨hm, hr'⟩
+      subst hr'
+      exact ⟨hm, Rep.canon_fromWord 0⟩
+    · exact Sat.illTyped
   | drop k =>
     exact Sat.conseq (drop_sat hI k) (fun _ _ _ _ hq => ⟨hq.1, hq.2.2⟩)
 
@@ -681,6 +693,9 @@ theorem stat_target_readonly {W mx : Nat} {P P' : Pool} {k : Nat} {ws : List Nat
     | exact absurd hr (onRep_stat h _ _ _)
     | skip
   case drop => exact Or.inr rfl
+  case zeroize =>
+    rw [h] at hr
+    exact absurd hr (illTyped_res _ _)
   case asSlice =>
     rw [h] at hr
     left
